@@ -7,6 +7,8 @@ Ref model while drawing, so that every operation can be positioned relative to t
 run (before / inside / touching / overlapping / after a gap / identical).  All randomness comes
 from Hypothesis draws.
 """
+import os
+
 from hypothesis import strategies as st
 
 from .model import Ref, runs_of, snap
@@ -342,6 +344,8 @@ def history(draw, classes=('DynGraph', 'DynDiGraph'), removal=(True,), kinds=Non
         ops.append(op)
         apply_model(model, dn_nodes, op)
     case = {"cls": cls, "removal": rem, "nodes": nodes, "ops": ops}
+    if os.environ.get('DXVERIF_FORCE_SHIFT'):      # harness self-test: every history is played at +-10**4400
+        shifts = ['p4400', 'n4400']
     if shifts:
         # one history in ten is played 10**4400 instants later / earlier (drive.tshift): Python cannot print such ints
         sh = draw(st.sampled_from([None] * 9 + ['p4400', 'n4400'] if shifts is True else shifts))
